@@ -167,6 +167,9 @@ func replayScheduleAndRecord(prog *symgo.Program, fn interface{ String() string 
 				confirmed = "no-fault"
 			}
 			note = rr.Kind + " " + rr.Violated + " " + rr.Fault
+		case res.Kind == "blocked" && rr.Quiescent && rr.Blocked > 0:
+			confirmed = res.Violated
+			note = fmt.Sprintf("%d goroutine(s) blocked forever at quiescence", rr.Blocked)
 		case res.Kind == "progress" && rr.StillRunnable > 0:
 			confirmed = res.Violated
 			note = fmt.Sprintf("%d goroutine(s) still runnable after the schedule", rr.StillRunnable)
